@@ -152,7 +152,7 @@ fn explore_all(tier: Tier, fams: &[plan::Family], drvs: &[Drv]) -> Agg {
         if shared.lock().unwrap().machinery.len() > 20 {
             return;
         }
-        if t0.elapsed().as_secs_f64() > budget {
+        if t0.elapsed().as_secs_f64() > budget || harness::expiries() >= 16 {
             skipped.fetch_add(1, Ordering::Relaxed);
             return;
         }
@@ -204,7 +204,11 @@ fn explore_all(tier: Tier, fams: &[plan::Family], drvs: &[Drv]) -> Agg {
     }
     let skipped = skipped.load(Ordering::Relaxed);
     if skipped > 0 {
-        agg.caps.push(format!("wall-time guard of {budget} s reached: {skipped} of {} plans not executed", plans.len()));
+        agg.caps.push(format!(
+            "exploration cut short ({}): {skipped} of {} plans not executed",
+            if harness::expiries() >= 16 { "16 watchdog expiries".to_string() } else { format!("wall-time guard of {budget} s") },
+            plans.len()
+        ));
     }
     if !agg.machinery.is_empty() {
         return agg;
@@ -221,6 +225,12 @@ fn explore_all(tier: Tier, fams: &[plan::Family], drvs: &[Drv]) -> Agg {
             if r.vios.iter().any(|(k, _)| k == key) {
                 seen += 1;
             }
+        }
+        if seen < 2 && harness::is_timeout_key(key) {
+            // a watchdog expiry is only a candidate until it reproduces (DESIGN.md section 0)
+            *agg.counters.entry("transient_watchdog_expiries_not_reproduced".into()).or_insert(0) += f.count;
+            eprintln!("note: watchdog expiry {key} did not reproduce ({seen}/2) for plan {}", f.plan.describe());
+            continue;
         }
         if seen < 2 {
             agg.nondet.push(format!("{key} (reproduced {seen}/2) plan {}", f.plan.describe()));
